@@ -120,6 +120,13 @@ def run(ctx):
                 spec.unsolicited = 0.7
                 spec.midloss = 0.35
                 fault, at = r.choice(["lose-clean", "lose-clean", "lose-error"]), r.randint(2, 6)
+                if r.random() < .5:
+                    # ... or the first completed update carries no pixel data, and the script runs to its end
+                    spec.nocursor = True
+                    spec.first_update_cursor_only = True
+                    spec.midloss = 0
+                    fault = r.choice(["none", "none", "lose-clean"])
+                    at = r.randint(4, 8)
             if si % 6 == 4:
                 # a command that raises inside the chain (bad button, coordinate out of range, image that does not exist): the rest of
                 # the script is skipped, the connection stays up - and then the server goes away, cleanly
@@ -160,6 +167,10 @@ def run(ctx):
             # status 0 only if the script was carried out completely and vncdo itself then closed the connection
             if st == 0 and not (completed and close_before_lost and "lose-clean" in kinds):
                 ctx.violate("status-zero-lie", dict(rp, observed="exit status 0 although the script was not completed / the connection was not closed by vncdo (events %r)" % kinds[-6:]))
+            ncap = sum(1 for w_ in spec.words if w_ in ("capture", "rcapture"))
+            nsaved = sum(1 for t in tl if t.startswith("save:"))
+            if st == 0 and nsaved < ncap:
+                ctx.violate("status-zero-lie", dict(rp, observed="exit status 0 although only %d of the script's %d captures wrote an image" % (nsaved, ncap)))
             if st in (None, 1) and (lost_idx is not None):
                 ctx.violate("no-status", dict(rp, observed="the connection is gone but no exit status was set (exit_status=%r)" % st))
             if fault in ("auth-failed", "server-refuses") and (st in (None, 1) or "close" not in tl):
